@@ -46,7 +46,8 @@ def softmax(row):
 
 def lm_logit(seed, h, v):
     """the table language model of the fusion clauses: logit of label v in LM state h (exact integer recipe)"""
-    return ((h * 7919 + v * 104729 + seed * 31337) % 1009) / 1009.0 * 4.0 - 2.0
+    x = (h * 7919 + v * 104729 + seed * 31337) % 1000003
+    return ((x * x + 12345 * x) % 1009) / 1009.0 * 4.0 - 2.0  # non-linear in (h, v, seed); fits int64
 
 
 LM_MOD = 1000003
@@ -65,7 +66,7 @@ def make_ext(V, fusion):
     transcribed from the formulas of the CTCPrefixSearch docstring."""
     if fusion is None or not fusion["beta"]:
         return lambda prefix, row: row[:V]
-    beta, seed = fusion["beta"], fusion["seed"]
+    beta, seed = fusion["beta"], fusion["seed"] + 97 * fusion.get("c", 1)  # c: the element's static LM context
 
     def ext(prefix, row):
         h = lm_state(prefix, V)
@@ -181,7 +182,9 @@ def _close(a, b, tol):
 
 def elem_contract(slots, width, V, L, rows, fusion, tol, tie):
     """slots: [(prefix as list, reported length, mass)] in slot order for one element with L valid frames
-    whose frame probabilities (oracle softmax) are rows[:L].  Returns None or a message."""
+    whose frame probabilities (oracle softmax) are rows[:L].  Returns None or a message.
+    float32 cases (tol > 1e-6): prefixes whose mass is below 1e-30 may be present or absent (underflow)."""
+    floor = 1e-30 if tol > 1e-6 else 0.0
     if len(slots) != width:
         return "returned %d slots for width %d" % (len(slots), width)
     ext = make_ext(V, fusion)
@@ -222,14 +225,18 @@ def elem_contract(slots, width, V, L, rows, fusion, tol, tie):
         beams, pruned = oracle_beam(rows, V, ext, width, tie)
     except OracleBlowUp as e:
         return "ORACLE: %s" % e
-    got = {pref: m for _, pref, m in pos}
+    got = {pref: m for _, pref, m in pos if m >= floor}
+    paths = {p: m for p, m in paths.items() if m >= floor}
     best = None
     for bm in beams:
-        want = {p: nb + b for p, (nb, b) in bm.items()}
+        want = {p: nb + b for p, (nb, b) in bm.items() if nb + b >= floor}
         if set(want) == set(got) and all(_close(want[p], got[p], tol) for p in want):
             return None if pruned else _cmp_exact(got, paths, tol)
         if best is None:
             best = want
+    lost = sorted(list(p) for p in best if p not in got)
+    if not pruned and lost and all(p in best and _close(best[p], m, tol) for p, m in got.items()):
+        return "nothing was pruned but prefix(es) %s of positive mass are lost: reported %s, path summation gives %s" % (lost, _fmt(got), _fmt(best))
     return "reported %s but the width-%d recursion gives %s%s" % (
         _fmt(got), width, _fmt(best), " (or %d tie-broken alternatives)" % (len(beams) - 1) if len(beams) > 1 else "")
 
@@ -261,19 +268,20 @@ def _tols(case):
     return (3e-5, 1e-4) if case.get("dtype") == "f32" else (1e-9, 1e-9)
 
 
-def _table_lm(V, seed):
+def _table_lm(V, seed0):
     import torch
     from pydrobert.torch.modules import MixableSequentialLanguageModel
 
     class TableLM(MixableSequentialLanguageModel):
-        """stateful: the distribution is read off the threaded state only; the state is advanced with the
-        single token hist[idx - 1].  Any mistake in extract_by_src / mix_by_mask bookkeeping of the search
-        therefore changes the distribution a prefix sees."""
+        """stateful: the distribution is read off the threaded state only (h: fold of the tokens consumed,
+        advanced with the single token hist[idx - 1]; c: a static per-element context handed in as the
+        initial state, like an encoder output).  Any mistake in extract_by_src / mix_by_mask bookkeeping
+        of the search therefore changes the distribution a prefix sees."""
 
         def update_input(self, prev, hist):
             if "h" in prev:
                 return prev
-            return {"h": torch.zeros(hist.size(1), dtype=torch.long)}
+            return {"h": torch.zeros(hist.size(1), dtype=torch.long), "c": prev["c"]}
 
         def calc_idx_log_probs(self, hist, prev, idx):
             B = hist.size(1)
@@ -284,20 +292,23 @@ def _table_lm(V, seed):
                 tok = torch.zeros(B, dtype=torch.long)
             h = torch.where(idx == 0, torch.ones_like(prev["h"]), (prev["h"] * (V + 2) + tok + 2) % LM_MOD)
             v = torch.arange(V)
-            logits = ((h.unsqueeze(1) * 7919 + v * 104729 + seed * 31337) % 1009).double() / 1009.0 * 4.0 - 2.0
-            return logits, {"h": h}
+            seed = (seed0 + 97 * prev["c"]).unsqueeze(1)
+            x = (h.unsqueeze(1) * 7919 + v * 104729 + seed * 31337) % 1000003
+            logits = ((x * x + 12345 * x) % 1009).double() / 1009.0 * 4.0 - 2.0
+            return logits, {"h": h, "c": prev["c"]}
 
         def extract_by_src(self, prev, src):
-            return {"h": prev["h"].index_select(0, src)}
+            return {k: x.index_select(0, src) for k, x in prev.items()}
 
         def mix_by_mask(self, prev_true, prev_false, mask):
-            return {"h": torch.where(mask, prev_true["h"], prev_false["h"])}
+            return {k: torch.where(mask, prev_true[k], prev_false[k]) for k in prev_true}
 
     return TableLM(V)
 
 
-def _search(case, logits_list, lens, give_lens=True):
-    """logits_list: [T][N][V+1] python floats -> per element list of slots"""
+def _search(case, logits_list, lens, give_lens=True, ctx_ids=None):
+    """logits_list: [T][N][V+1] python floats -> per element list of slots.  ctx_ids: the static LM context
+    of each element (default 1, 2, ..)"""
     import torch
     from pydrobert.torch.modules import CTCPrefixSearch
 
@@ -313,10 +324,10 @@ def _search(case, logits_list, lens, give_lens=True):
     with warnings.catch_warnings():
         warnings.simplefilter("ignore")
         with torch.no_grad():
-            if give_lens:
-                y, y_lens, p = mod(logits, torch.tensor(lens, dtype=torch.long))
-            else:
-                y, y_lens, p = mod(logits)
+            args = [logits, torch.tensor(lens, dtype=torch.long) if give_lens else None]
+            if fusion is not None:
+                args.append({"c": torch.tensor(ctx_ids or list(range(1, N + 1)), dtype=torch.long)})
+            y, y_lens, p = mod(*args)
     if tuple(p.shape) != (N, W) or tuple(y_lens.shape) != (N, W) or y.dim() != 3 or tuple(y.shape[1:]) != (N, W):
         raise AssertionError("shapes y %s y_lens %s probs %s for N=%d width=%d" % (tuple(y.shape), tuple(y_lens.shape), tuple(p.shape), N, W))
     out = []
@@ -383,11 +394,12 @@ def check_search_batch(case):
     tol, tie = _tols(case)
     msgs = []
     for n, L in enumerate(lens):
-        m = elem_contract(res[n], W, V, L, _rows_of(logits, n, L), case.get("fusion"), tol, tie)
+        fus = dict(case["fusion"], c=n + 1) if case.get("fusion") else None
+        m = elem_contract(res[n], W, V, L, _rows_of(logits, n, L), fus, tol, tie)
         if m:
             msgs.append("element %d (of %d, lens %s): %s" % (n, len(lens), lens, m))
             continue
-        solo, _ = _search(case, [[full[t][n]] for t in range(L)], [L])
+        solo, _ = _search(case, [[full[t][n]] for t in range(L)], [L], ctx_ids=[n + 1])
         a = [(tuple(s[0]), s[2]) for s in res[n] if s[2] > 0.0]
         b = [(tuple(s[0]), s[2]) for s in solo[0] if s[2] > 0.0]
         if [x[0] for x in a] != [x[0] for x in b] or any(not _close(x[1], y[1], tol) for x, y in zip(a, b)):
@@ -399,7 +411,7 @@ def check_search_batch(case):
     nan = [m for m in msgs if "NaN mass" in m and "additionally" not in m]
     if len(nan) == len(msgs):
         return msgs[0]
-    return "; ".join(m for m in msgs if m not in nan) [:1500] + ("; additionally NaN in %d element(s)" % len(nan) if nan else "")
+    return " || ".join(m for m in msgs if m not in nan)[:1500] + ("; additionally NaN in %d element(s)" % len(nan) if nan else "")
 
 
 # ------------------------------------------------------------------------------------------------------
@@ -439,8 +451,10 @@ def _slot_ext(case, n):
 
 
 def check_advance(case):
-    """{V, t0, wprev, rand, N, n_invalid, inv_b (0|-inf as 'z'|'i'), width, perslot}: one call of
-    ctc_prefix_search_advance on beams built by the oracle, compared with one frame of oracle 2."""
+    """{V, t0, wprev, rand, N, n_invalid, inv_b (0|-inf as 'z'|'i'), width, perslot, steps}: `steps` chained
+    calls of ctc_prefix_search_advance, the first on beams built by the oracle, each later one on the
+    previous call's own outputs ("the *next* tensors are analogous to the *prev* arguments"); every call
+    is compared with one frame of oracle 2 over the live slots."""
     import torch
     from pydrobert.torch.functional import ctc_prefix_search_advance
 
@@ -459,114 +473,129 @@ def check_advance(case):
     nb = torch.zeros(N, Kp, dtype=torch.float64)
     b = torch.zeros(N, Kp, dtype=torch.float64)
     isp = torch.zeros(N, Kp, Kp, dtype=torch.bool)
-    extp = torch.zeros(N, Kp, V, dtype=torch.float64)
-    nonext = torch.zeros(N, V, dtype=torch.float64)
-    blank = torch.zeros(N, dtype=torch.float64)
     for n in range(N):
         slots, row, rng = per[n]
         slots = slots + [(None, -INF, inv_b)] * (Kp - len(slots))
         rng.shuffle(slots)
         per[n][0] = slots
-        ext = _slot_ext(case, n)
         for k, (p, a_nb, a_b) in enumerate(slots):
             garbage = rng.choice([0, V - 1, V, V + 3, -1])
             y[:, n, k] = garbage
             nb[n, k], b[n, k] = a_nb, a_b
             if p is None:
-                extp[n, k] = torch.tensor(row[:V], dtype=torch.float64)
                 last[n, k] = rng.choice([0, V - 1])
                 continue
             for i, tok in enumerate(p):
                 y[i, n, k] = tok
             lens[n, k] = len(p)
             last[n, k] = p[-1] if p else garbage
-            extp[n, k] = torch.tensor(ext(p, row), dtype=torch.float64)
             for k2, (p2, _, _) in enumerate(slots):
                 isp[n, k, k2] = p2 is not None and _is_prefix(p, p2)
-        nonext[n] = torch.tensor(row[:V], dtype=torch.float64)
-        blank[n] = row[V]
-    with warnings.catch_warnings():
-        warnings.simplefilter("ignore")
-        out = ctc_prefix_search_advance((extp, nonext, blank), W, (nb, b), y, last, lens, isp)
-    y2, last2, lens2, (nb2, b2), isp2, src2, nonext2 = out
-    want_shapes = [(tm1 + 1, N, W), (N, W), (N, W), (N, W), (N, W), (N, W, W), (N, W), (N, W)]
-    got_shapes = [tuple(x.shape) for x in (y2, last2, lens2, nb2, b2, isp2, src2, nonext2)]
-    if got_shapes != want_shapes:
-        return "output shapes %s, expected %s" % (got_shapes, want_shapes)
-    msgs = []
-    for n in range(N):
-        slots, row, _ = per[n]
-        ext = _slot_ext(case, n)
-        st = {p: (a_nb, a_b) for p, a_nb, a_b in slots if p is not None}
-        cands = beam_step(st, row, V, lambda p: ext(p, row))
-        tot = [float(nb2[n, k] + b2[n, k]) for k in range(W)]
-        nan = [k for k in range(W) if math.isnan(tot[k])]
-        em = []
-        got, prefs = {}, {}
-        for k in range(W):
-            if not tot[k] >= 0.0:
-                if not math.isnan(tot[k]) and tot[k] != -INF:
-                    em.append("slot %d has total mass %r" % (k, tot[k]))
-                continue
-            s = int(src2[n, k])
-            if not (0 <= s < Kp) or slots[s][0] is None:
-                if tot[k] > 0.0:
-                    em.append("slot %d (mass %.6g) has source %d which is not a live slot" % (k, tot[k], s))
-                continue
-            ln = int(lens2[n, k])
-            pref = tuple(y2[:ln, n, k].tolist()) if 0 <= ln <= tm1 + 1 else None
-            src_p = slots[s][0]
-            if bool(nonext2[n, k]):
-                ok = pref == src_p
-            else:
-                ok = pref is not None and len(pref) == len(src_p) + 1 and pref[:-1] == src_p and 0 <= pref[-1] < V
-            if not ok:
-                em.append("slot %d: prefix %s is not its source %s %s" % (k, pref, list(src_p), "unchanged" if bool(nonext2[n, k]) else "plus one label"))
-                continue
-            prefs[k] = pref
-            if pref and int(last2[n, k]) != pref[-1]:
-                em.append("slot %d: last label reported %d for prefix %s" % (k, int(last2[n, k]), list(pref)))
-            c = cands.get(pref)
-            if c is None:
-                em.append("slot %d: prefix %s is no candidate of the recursion" % (k, list(pref)))
-                continue
+    for step in range(case.get("steps", 1)):
+        extp = torch.zeros(N, Kp, V, dtype=torch.float64)
+        nonext = torch.zeros(N, V, dtype=torch.float64)
+        blank = torch.zeros(N, dtype=torch.float64)
+        for n in range(N):
+            slots, row, rng = per[n]
+            if step:
+                row = per[n][1] = softmax([rng.gauss(0.0, 1.5) for _ in range(V + 1)])
+            ext = _slot_ext(case, n)
+            for k, (p, _, _) in enumerate(slots):
+                extp[n, k] = torch.tensor(row[:V] if p is None else ext(p, row), dtype=torch.float64)
+            nonext[n] = torch.tensor(row[:V], dtype=torch.float64)
+            blank[n] = row[V]
+        with warnings.catch_warnings():
+            warnings.simplefilter("ignore")
+            out = ctc_prefix_search_advance((extp, nonext, blank), W, (nb, b), y, last, lens, isp)
+        y2, last2, lens2, (nb2, b2), isp2, src2, nonext2 = out
+        want_shapes = [(tm1 + 1, N, W), (N, W), (N, W), (N, W), (N, W), (N, W, W), (N, W), (N, W)]
+        got_shapes = [tuple(x.shape) for x in (y2, last2, lens2, nb2, b2, isp2, src2, nonext2)]
+        if got_shapes != want_shapes:
+            return "call %d: output shapes %s, expected %s" % (step + 1, got_shapes, want_shapes)
+        msgs = []
+        for n in range(N):
+            m, new_slots = _advance_elem(per[n][0], per[n][1], _slot_ext(case, n), V, W, Kp, tm1, n,
+                                         y2, last2, lens2, nb2, b2, isp2, src2, nonext2, tol, tie)
+            if m:
+                msgs.append("element %d: %s" % (n, m))
+            per[n][0] = new_slots
+        if msgs:
+            return ("call %d of the chain: " % (step + 1) if case.get("steps", 1) > 1 else "") + " || ".join(msgs)[:1800]
+        y, last, lens, nb, b, isp = y2, last2, lens2, nb2, b2, isp2
+        Kp, tm1 = W, tm1 + 1
+    return None
+
+
+def _advance_elem(slots, row, ext, V, W, Kp, tm1, n, y2, last2, lens2, nb2, b2, isp2, src2, nonext2, tol, tie):
+    st = {}
+    for p, a_nb, a_b in slots:
+        if p is not None:
+            o = st.get(p, (0.0, 0.0))
+            st[p] = (o[0] + a_nb, o[1] + a_b)
+    cands = beam_step(st, row, V, lambda p: ext(p, row))
+    tot = [float(nb2[n, k] + b2[n, k]) for k in range(W)]
+    nan = [k for k in range(W) if math.isnan(tot[k])]
+    em = []
+    got, prefs = {}, {}
+    for k in range(W):
+        if not tot[k] >= 0.0:
+            if not math.isnan(tot[k]) and tot[k] != -INF:
+                em.append("slot %d has total mass %r" % (k, tot[k]))
+            continue
+        s = int(src2[n, k])
+        if not (0 <= s < Kp) or slots[s][0] is None:
             if tot[k] > 0.0:
-                if pref in got:
-                    em.append("prefix %s has positive mass in two slots" % (list(pref),))
-                got[pref] = tot[k]
-                if not (_close(float(nb2[n, k]), c[0], tol) and _close(float(b2[n, k]), c[1], tol)):
-                    em.append("slot %d: prefix %s has (non-blank, blank) mass (%.9g, %.9g), one frame of the recursion gives (%.9g, %.9g)" % (
-                        k, list(pref), float(nb2[n, k]), float(b2[n, k]), c[0], c[1]))
-        # the selected set: the width heaviest candidates of positive mass
-        items = sorted((x + z for x, z in cands.values() if x + z > 0.0), reverse=True)
-        if len(got) != min(W, len(items)) and not nan:
-            em.append("%d slots of positive mass, expected %d" % (len(got), min(W, len(items))))
-        elif len(items) > W and not nan:
-            edge = items[W - 1]
-            for p, (x, z) in cands.items():
-                if x + z > edge * (1 + tie) and p not in got:
-                    em.append("candidate %s of mass %.9g was dropped although the %d-th heaviest is %.9g" % (list(p), x + z, W, edge))
-        if not nan:
-            for k in range(W - 1):
-                if not tot[k] >= tot[k + 1]:
-                    em.append("total masses not non-increasing at slots %d,%d" % (k, k + 1))
-                    break
-        # prefix relation among the real slots
-        for k in prefs:
-            for k2 in prefs:
-                if bool(isp2[n, k, k2]) != _is_prefix(prefs[k], prefs[k2]):
-                    em.append("is_prefix[%d,%d]=%s for prefixes %s, %s" % (k, k2, bool(isp2[n, k, k2]), list(prefs[k]), list(prefs[k2])))
-        for k in range(W):
-            if tot[k] == -INF and (bool(isp2[n, k].any()) or bool(isp2[n, :, k].any())) and k not in prefs:
-                s = int(src2[n, k])
-                if not (0 <= s < Kp) or slots[s][0] is None:
-                    em.append("invalid slot %d takes part in the prefix relation" % k)
-        if nan:
-            msgs.append("element %d: NaN total mass in slot(s) %s (old width %d of which %d invalid, width %d)%s" % (
-                n, nan, Kp, sum(1 for s in slots if s[0] is None), W, "; additionally: " + "; ".join(em[:3]) if em else ""))
-        elif em:
-            msgs.append("element %d: %s" % (n, "; ".join(em[:4])))
-    return "; ".join(msgs)[:1800] if msgs else None
+                em.append("slot %d (mass %.6g) has source %d which is not a live slot" % (k, tot[k], s))
+            continue
+        ln = int(lens2[n, k])
+        pref = tuple(y2[:ln, n, k].tolist()) if 0 <= ln <= tm1 + 1 else None
+        src_p = slots[s][0]
+        if bool(nonext2[n, k]):
+            ok = pref == src_p
+        else:
+            ok = pref is not None and len(pref) == len(src_p) + 1 and pref[:-1] == src_p and 0 <= pref[-1] < V
+        if not ok:
+            em.append("slot %d: prefix %s is not its source %s %s" % (k, pref, list(src_p), "unchanged" if bool(nonext2[n, k]) else "plus one label"))
+            continue
+        prefs[k] = pref
+        if pref and int(last2[n, k]) != pref[-1]:
+            em.append("slot %d: last label reported %d for prefix %s" % (k, int(last2[n, k]), list(pref)))
+        c = cands.get(pref)
+        if c is None:
+            em.append("slot %d: prefix %s is no candidate of the recursion" % (k, list(pref)))
+            continue
+        if tot[k] > 0.0:
+            if pref in got:
+                em.append("prefix %s has positive mass in two slots" % (list(pref),))
+            got[pref] = tot[k]
+            if not (_close(float(nb2[n, k]), c[0], tol) and _close(float(b2[n, k]), c[1], tol)):
+                em.append("slot %d: prefix %s has (non-blank, blank) mass (%.9g, %.9g), one frame of the recursion gives (%.9g, %.9g)" % (
+                    k, list(pref), float(nb2[n, k]), float(b2[n, k]), c[0], c[1]))
+    # the selected set: the width heaviest candidates of positive mass
+    items = sorted((x + z for x, z in cands.values() if x + z > 0.0), reverse=True)
+    if len(got) != min(W, len(items)) and not nan:
+        lost = sorted(list(p) for p, (x, z) in cands.items() if x + z > 0.0 and p not in got)
+        em.append("%d slots of positive mass, expected %d%s" % (len(got), min(W, len(items)), " (candidates lost: %s)" % lost if len(items) <= W else ""))
+    elif len(items) > W and not nan:
+        edge = items[W - 1]
+        for p, (x, z) in cands.items():
+            if x + z > edge * (1 + tie) and p not in got:
+                em.append("candidate %s of mass %.9g was dropped although the %d-th heaviest is %.9g" % (list(p), x + z, W, edge))
+    if not nan:
+        for k in range(W - 1):
+            if not tot[k] >= tot[k + 1]:
+                em.append("total masses not non-increasing at slots %d,%d" % (k, k + 1))
+                break
+    # prefix relation among the real slots
+    for k in prefs:
+        for k2 in prefs:
+            if bool(isp2[n, k, k2]) != _is_prefix(prefs[k], prefs[k2]):
+                em.append("is_prefix[%d,%d]=%s for prefixes %s, %s" % (k, k2, bool(isp2[n, k, k2]), list(prefs[k]), list(prefs[k2])))
+    new_slots = [(prefs.get(k), float(nb2[n, k]), float(b2[n, k])) for k in range(W)]
+    if nan:
+        return "NaN total mass in slot(s) %s (old width %d of which %d invalid, width %d)%s" % (
+            nan, Kp, sum(1 for x in slots if x[0] is None), W, "; additionally: " + "; ".join(em[:3]) if em else ""), new_slots
+    return ("; ".join(em[:4]) if em else None), new_slots
 
 
 # ------------------------------------------------------------------------------------------------------
@@ -580,21 +609,23 @@ def _tables(T, V):
 
 def _tv(ctx):
     if ctx.quick:
-        return [(T, V) for V in (1, 2) for T in range(0, 4)]
-    return [(T, V) for V in (1, 2) for T in range(0, 5)] + [(T, 3) for T in range(0, 4)]
+        return [(T, 1) for T in range(0, 6)] + [(T, 2) for T in range(0, 4)]
+    return [(T, 1) for T in range(0, 7)] + [(T, 2) for T in range(0, 5)] + [(T, 3) for T in range(0, 4)]
 
 
 def _grid_ok(ctx, T, V):
     """the exhaustive part of the table space: all grid tables with T*V <= 6 entries (quick) / 8 (thorough)"""
-    return T * V <= (6 if ctx.quick else 8)
+    return T * V <= (6 if ctx.quick else 8) and not (V == 1 and T > (5 if ctx.quick else 6))
 
 
 def cases_exact(ctx):
-    """widths that never force a prune: reachable(T,V) .. +2, and 25 (far beyond)"""
+    """widths that never force a prune: reachable(T,V) .. +2, 14, 25 (far beyond); V=1: every width R..16"""
     for T, V in _tv(ctx):
         R = reachable(T, V)
-        widths = sorted(set([R, R + 1, R + 2, 25, 60] if not ctx.quick else [R, R + 1, R + 2, 25]))
-        widths = [w for w in widths if w >= R]
+        widths = set([R, R + 1, R + 2, 14, 25, 60] if not ctx.quick else [R, R + 1, R + 2, 14, 25])
+        if V == 1:
+            widths |= set(range(R, 17))
+        widths = sorted(w for w in widths if w >= R)
         if _grid_ok(ctx, T, V):
             for tab in _tables(T, V):
                 for w in widths:
@@ -695,7 +726,8 @@ def cases_fusion(ctx):
                     for s in range(2 if ctx.quick else 4):
                         yield {"V": V, "T": T, "width": w, "rand": 31 + s, "fusion": dict(fus, seed=s)}
                     for lens in itertools.product(range(T + 1), repeat=2):
-                        yield {"V": V, "T": T, "width": w, "lens": list(lens), "rand": 41 + T, "fusion": fus}
+                        for s in range(2 if ctx.quick else 3):
+                            yield {"V": V, "T": T, "width": w, "lens": list(lens), "rand": 41 + T + 100 * s, "fusion": fus}
     if not ctx.quick:
         rng = random.Random(ctx.seed * 1000003 + 54)
         for _ in range(4000):
@@ -732,44 +764,84 @@ def cases_advance(ctx):
                                 for w in sorted({1, 2, 3, live, kp, kp + 1, live * (V + 1) - 1, kp * (V + 1), kp * (V + 1) + 3}):
                                     if w >= 1:
                                         yield dict(base, width=w)
+    # chains from the initial beam (what CTCPrefixSearch.forward does), the step function fed its own outputs
+    for V in (1, 2, 3):
+        for steps in range(2, (5 if ctx.quick else 7) + (1 if V == 1 else 0)):
+            for N in (1, 2):
+                for perslot in (False, True):
+                    for w in (1, 2, 3, 5, 7, 8, 9, 14, 25):
+                        for s in range(seeds):
+                            yield {"V": V, "t0": 0, "wprev": None, "N": N, "n_invalid": 0, "inv_b": "i", "perslot": perslot, "rand": 50 * s + V, "width": w, "steps": steps}
 
 
 # ------------------------------------------------------------------------------------------------------
 # known defect of the unchanged tree (see final report / FINDINGS)
 
 
+def _wide(case, min_frames):
+    V, W = case["V"], case["width"]
+    lens = case["lens"] if isinstance(case.get("lens"), list) else [case["T"]]
+    return W > V * V + V + 1 and max(lens) >= min_frames
+
+
 def _nan_class_search(case, msg):
     """width exceeds the V*V+V+1 finite candidates of the second frame (so -inf filler slots created in the
     first frame survive into a further step) for an element with >= 2 valid frames; the only symptom
     reported is NaN mass"""
-    if "NaN mass" not in msg or "additionally" in msg:
-        return False
-    V, W = case["V"], case["width"]
-    lens = case["lens"] if isinstance(case.get("lens"), list) else [case["T"]]
-    return W > V * V + V + 1 and max(lens) >= 2
+    return "NaN mass" in msg and "additionally" not in msg and _wide(case, 2)
 
 
 def _nan_class_advance(case, msg):
-    """the beam handed in holds invalid (-inf) slots and the width exceeds the number of finite candidates"""
-    return "NaN total mass" in msg and "additionally" not in msg and case["n_invalid"] > 0
+    """the beam handed in holds invalid (-inf) slots (given, or produced by an earlier call of a chain) and
+    the width exceeds the number of finite candidates; the only symptom is NaN total mass"""
+    return "NaN total mass" in msg and "additionally" not in msg and (case["n_invalid"] > 0 or case.get("steps", 1) > 1)
 
 
-_WHAT = ("-inf filler slots of a beam wider than the live prefixes turn into NaN one step after they are created "
-         "(b_nonext_probs_cand.gather(...) * next_is_nonext computes -inf * 0), and NaN then sorts first in topk: "
-         "NaN masses are returned and displace real prefixes")
-_CLASS_S = "width > V*V+V+1 and the element has >= 2 valid frames (fillers made in frame 1 are re-selected in frame 2)"
+def _lost_class_search(case, msg):
+    """same widths, an element with >= 4 valid frames; the only symptom is that prefixes of positive mass are
+    missing from an unpruned result while every reported mass is right"""
+    if "NaN" in msg and "additionally NaN in" not in msg:
+        return False
+    parts = msg.split("; additionally NaN in")[0].split(" || ")
+    return _wide(case, 4) and all("of positive mass are lost" in p for p in parts)
+
+
+def _lost_class_advance(case, msg):
+    """chain of >= 4 calls with such a width; the only symptom is a positive-mass candidate missing from an unpruned step"""
+    if case.get("steps", 1) < 4 or case["width"] <= case["V"] ** 2 + case["V"] + 1 or "NaN" in msg:
+        return False
+    return all("candidates lost" in p and "; " not in p for p in msg.split(" || "))
+
+
+_WHAT1 = ("beam wider than the live candidates: -inf filler slots turn into NaN one step after they are created "
+          "(b_nonext_probs_cand.gather(1, next_src) * next_is_nonext computes -inf * 0 for a filler re-selected as an extension), "
+          "and NaN then sorts first in topk: NaN masses are returned and displace real prefixes")
+_WHAT2 = ("beam wider than the live candidates: an extension candidate that was merged into an identical prefix (mass set to -inf) is "
+          "picked to fill the beam, keeps its place in the prefix relation, and two frames later its -inf is merged into a real "
+          "longer prefix, whose mass is lost (prefix missing from the result)")
+_CLASS1 = "width > V*V+V+1 and the element has >= 2 valid frames"
+_CLASS2 = "width > V*V+V+1 and the element has >= 4 valid frames (which widths lose a prefix depends on how topk orders equal -inf candidates)"
 FINDINGS = [
-    {"id": "KF-C05-1", "property": "C05", "clause": "C05.search.exact", "what": _WHAT, "class": _CLASS_S,
+    {"id": "KF-C05-1", "property": "C05", "clause": "C05.search.exact", "what": _WHAT1, "class": _CLASS1,
      "witness": {"V": 2, "T": 2, "width": 8, "table": [[1, 1], [1, 1]]}},
-    {"id": "KF-C05-1b", "property": "C05", "clause": "C05.search.pruned", "what": _WHAT, "class": _CLASS_S,
+    {"id": "KF-C05-1b", "property": "C05", "clause": "C05.search.pruned", "what": _WHAT1, "class": _CLASS1,
      "witness": {"V": 2, "T": 4, "width": 8, "table": [[1, 1], [1, 1], [1, 1], [1, 1]]}},
-    {"id": "KF-C05-1c", "property": "C05", "clause": "C05.search.batch", "what": _WHAT, "class": _CLASS_S,
+    {"id": "KF-C05-1c", "property": "C05", "clause": "C05.search.batch", "what": _WHAT1, "class": _CLASS1,
      "witness": {"V": 2, "T": 2, "width": 25, "lens": [0, 2], "rand": 16}},
-    {"id": "KF-C05-1d", "property": "C05", "clause": "C05.search.fusion", "what": _WHAT, "class": _CLASS_S,
+    {"id": "KF-C05-1d", "property": "C05", "clause": "C05.search.fusion", "what": _WHAT1, "class": _CLASS1,
      "witness": {"V": 2, "T": 2, "width": 25, "rand": 31, "fusion": {"beta": 0.3, "mixture": False, "seed": 0}}},
-    {"id": "KF-C05-1e", "property": "C05", "clause": "C05.advance.step", "what": _WHAT,
-     "class": "the beam handed to the step holds invalid (-inf) slots and width exceeds the number of finite candidates",
-     "witness": {"V": 2, "t0": 1, "wprev": None, "N": 1, "n_invalid": 2, "inv_b": "i", "perslot": False, "rand": 5, "width": 16}},
+    {"id": "KF-C05-1e", "property": "C05", "clause": "C05.advance.step", "what": _WHAT1,
+     "class": "the beam handed to the step holds invalid (-inf) slots (given, or made by an earlier call of the chain) and width exceeds the number of finite candidates",
+     "witness": {"V": 2, "t0": 0, "wprev": None, "N": 1, "n_invalid": 0, "inv_b": "i", "perslot": True, "rand": 2, "width": 8, "steps": 2}},
+    {"id": "KF-C05-2", "property": "C05", "clause": "C05.search.exact", "what": _WHAT2, "class": _CLASS2,
+     "witness": {"V": 1, "T": 5, "width": 7, "table": [[0], [0], [0], [0], [0]]}},
+    {"id": "KF-C05-2c", "property": "C05", "clause": "C05.search.batch", "what": _WHAT2, "class": _CLASS2,
+     "witness": {"V": 1, "T": 4, "width": 25, "lens": [4, 0], "rand": 29}},
+    {"id": "KF-C05-2d", "property": "C05", "clause": "C05.search.fusion", "what": _WHAT2, "class": _CLASS2,
+     "witness": {"V": 1, "T": 4, "width": 25, "rand": 33, "fusion": {"beta": 0.3, "mixture": True, "seed": 2}}},
+    {"id": "KF-C05-2e", "property": "C05", "clause": "C05.advance.step", "what": _WHAT2,
+     "class": "chain of >= 4 calls from the initial beam with width > V*V+V+1",
+     "witness": {"V": 1, "t0": 0, "wprev": None, "N": 1, "n_invalid": 0, "inv_b": "i", "perslot": True, "rand": 1, "width": 7, "steps": 5}},
 ]
 KNOWN_MATCH = {
     "KF-C05-1": _nan_class_search,
@@ -777,6 +849,10 @@ KNOWN_MATCH = {
     "KF-C05-1c": _nan_class_search,
     "KF-C05-1d": _nan_class_search,
     "KF-C05-1e": _nan_class_advance,
+    "KF-C05-2": _lost_class_search,
+    "KF-C05-2c": _lost_class_search,
+    "KF-C05-2d": _lost_class_search,
+    "KF-C05-2e": _lost_class_advance,
 }
 
 CHECKERS = {
@@ -800,37 +876,38 @@ def run_bounded(ctx):
 
     ctx.known_match.update(KNOWN_MATCH)
     q = ctx.quick
-    tv = "V<=2,T<=3" if q else "V<=2,T<=4 and V=3,T<=3"
-    grid = "all tables over the score grid {-2,0,1.5}+generic offsets (blank score 0) with T*V<=%d entries" % (6 if q else 8)
+    tv = "V=1,T<=5 and V=2,T<=3" if q else "V=1,T<=6, V=2,T<=4 and V=3,T<=3"
+    grid = "every table over the score grid {-2,0,1.5}+generic offsets (blank score 0) with T*V<=%d entries" % (6 if q else 8)
     rnd = "" if q else "; plus seeded random cases V<=4, T<=6, float32/float64, score scale .5/1.5/4"
     if _wanted(ctx, "C05.search.exact"):
         ctx.bounded("C05.search.exact", check_search_single, cases_exact(ctx),
-                    bound="%s; %s; widths R, R+1, R+2, 25%s where R = number of reachable prefixes; un-jittered (tied) tables at width R; lens=None and float32 forms%s" % (tv, grid, "" if q else ", 60", rnd),
+                    bound="%s; %s; widths R, R+1, R+2, 14, 25%s (V=1: every width R..16) where R = number of reachable prefixes; un-jittered (tied) tables at width R; one lens=None and one float32 Gaussian table per (T,V,width)%s" % (
+                        tv, grid, "" if q else ", 60", rnd),
                     text="nothing pruned: positive-mass slots = all prefixes of positive path mass with the masses of brute-force path summation; order, distinctness, blank-free, length, fillers 0/-inf behind, no NaN",
                     nontrivial=lambda c: c["T"] >= 2, chunk=32, functions=[M_FWD, M_ADV])
     if _wanted(ctx, "C05.search.pruned"):
         ctx.bounded("C05.search.pruned", check_search_single, cases_pruned(ctx),
-                    bound="%s; %s; every width 1..R-1 (R<=12, else 1..9,12,16,R/2,R-1); tied tables (un-jittered) with tie-tolerant oracle%s" % (tv, grid, rnd),
+                    bound="%s; %s; every width 1..R-1 (R<=12, else 1..9,12,16,R/2,R-1); tied (un-jittered) tables with tie-tolerant oracle; one lens=None and one float32 Gaussian table per (T,V,width)%s" % (tv, grid, rnd),
                     text="pruning happens: positive-mass slots and masses equal an independent dict-based prefix-beam recursion of the same width; every mass <= exact path mass; order, distinctness, no NaN",
                     nontrivial=lambda c: c["T"] >= 2, chunk=32, functions=[M_FWD, M_ADV])
     if _wanted(ctx, "C05.search.batch"):
         ctx.bounded("C05.search.batch", check_search_batch, cases_batch(ctx),
                     bound="V<=2, T<=%d, N in {2,3}, every lens vector in {0..T}^N, widths {1,2,3,5,R,R+1,25%s}, %d seeded Gaussian score tensors each%s" % (
-                        3 if q else 4, "" if q else ",4,7,9,12", 2 if q else 3, "" if q else "; plus seeded random N<=5, V<=3, T<=5"),
+                        3 if q else 4, "" if q else ",4,7,9,12", 2 if q else 3, "" if q else "; plus seeded random N<=5, V<=3, T<=5, float32/float64"),
                     text="each element of a ragged batch obeys the element contract on its own valid frames and equals the search of logits[:lens[n], n] alone",
                     nontrivial=lambda c: len(set(c["lens"])) > 1, chunk=16, functions=[M_FWD, M_ADV])
     if _wanted(ctx, "C05.search.fusion"):
         ctx.bounded("C05.search.fusion", check_fusion, cases_fusion(ctx),
-                    bound="V<=2, T<=%d, beta in {0,.3,1} x {shallow fusion, valid mixture}, stateful table LM; grid tables with T*V<=%d, seeded tables, batches of 2 with every lens pair; widths {1,2,3,5,R,R+1,25%s}%s" % (
+                    bound="V<=2, T<=%d, beta in {0,.3,1} x {shallow fusion, valid mixture}, stateful table LM with a per-element context; grid tables with T*V<=%d, seeded tables, batches of 2 with every lens pair; widths {1,2,3,5,R,R+1,25%s}%s" % (
                         3 if q else 4, 4 if q else 6, "" if q else ",4,7,9,12", "" if q else "; plus seeded random beta, V<=3, T<=5, N<=4"),
-                    text="fused search: masses equal the recursion/path summation with the docstring's fused extension score; LM state threaded per prefix (a state-only LM sees the right history)",
+                    text="fused search: masses equal the recursion/path summation with the docstring's fused extension score; LM state threaded per prefix and per batch element (a state-only LM sees the right history and context)",
                     nontrivial=lambda c: c["fusion"]["beta"] > 0 and c["T"] >= 2, chunk=16, functions=[M_FWD, M_ADV])
     if _wanted(ctx, "C05.advance.step"):
         ctx.bounded("C05.advance.step", check_advance, cases_advance(ctx),
-                    bound="V<=3, beams after t0<=%d frames (unpruned or pruned to 2/3, zero-mass candidates kept, shuffled slots, garbage beyond lengths), N<=2, 0 or 2 invalid slots (blank mass 0 or -inf), plain/per-slot extension scores, widths {1,2,3,live,K',K'+1,live(V+1)-1,K'(V+1),K'(V+1)+3}, %d seeds" % (
-                        2 if q else 3, 2 if q else 4),
-                    text="one call of ctc_prefix_search_advance = one frame of the dict recursion: (non-blank, blank) mass per prefix, merge of an extension into an identical prefix, top-width selection, source/last/length bookkeeping, prefix relation, no NaN",
-                    nontrivial=lambda c: c["t0"] >= 1, chunk=16, functions=[M_ADV])
+                    bound="single calls: V<=3, beams after t0<=%d frames (unpruned or pruned to 2/3, zero-mass candidates kept, shuffled slots, garbage beyond lengths), N<=2, 0 or 2 invalid slots (blank mass 0 or -inf), plain/per-slot extension scores, widths {1,2,3,live,K',K'+1,live(V+1)-1,K'(V+1),K'(V+1)+3}, %d seeds; chains of 2..%d calls (V=1: %d) from the initial beam fed their own outputs, widths {1,2,3,5,7,8,9,14,25}" % (
+                        2 if q else 3, 2 if q else 4, 4 if q else 6, 5 if q else 7),
+                    text="a call of ctc_prefix_search_advance = one frame of the dict recursion: (non-blank, blank) mass per prefix, merge of an extension into an identical prefix, top-width selection, source/last/length bookkeeping, prefix relation, no NaN; its outputs are valid inputs of the next call",
+                    nontrivial=lambda c: c["t0"] >= 1 or c.get("steps", 1) > 1, chunk=16, functions=[M_ADV])
     ctx.replay_known_witnesses()
     ctx.assume("float64 masses compared with relative tolerance 1e-9 (float32 cases: 3e-5); candidates within that relative gap of the pruning boundary count as tied and may be kept or dropped",
                "the oracle computes the frame probabilities as softmax of the same scores in Python floats",
